@@ -17,20 +17,21 @@ def dec_descriptor(rec, clause):
     return d
 
 
-def validate_dec_trace(res, trace, tag, profile="release"):
-    """Feeds one decoder trace to Trace_Dec and reports mismatches."""
+def validate_dec_trace(res, trace, tag, profile="release", module="Trace_Dec", descriptor=None, constants=None):
+    """Feeds one trace to a Trace_* spec and reports mismatches."""
+    descriptor = descriptor or dec_descriptor
     n = count_lines(trace)
     if n == 0:
         return
-    checked, mism, r = tlc_validate("Trace_Dec", trace, tag)
+    checked, mism, r = tlc_validate(module, trace, tag, constants=constants)
     if checked != n:
-        raise ToolError("Trace_Dec consumed %d of %d records" % (checked, n))
+        raise ToolError("%s consumed %d of %d records" % (module, checked, n))
     res.traces += checked
     res.profiles.add(profile)
     recs = fetch_records(trace, [m[0] for m in mism])
     for i, clause in mism:
         rec = recs.get(i, {"i": i})
-        res.report(dec_descriptor(rec, clause), rec, clause)
+        res.report(descriptor(rec, clause), rec, clause)
     return mism
 
 
